@@ -116,6 +116,10 @@ func Run(tier string, seed int64, outDir string) *common.Meta {
 		{"embedded names", []string{"-enable=sloppyLen,assignOp,emptyStringTest,wrapperFunc,unslice"}, []string{"-enable=sloppyLen,assignOp,emptyStringTest,wrapperFunc,unslice", "-disable="}, nil},
 		{"tags", []string{"-enable=#diagnostic,#style", "-disable=#experimental,#opinionated"}, []string{"-enable=#diagnostic,#style", "-disable=#experimental,#opinionated"}, nil},
 		{"parameter", []string{"-enable=captLocal", "-@captLocal.paramsOnly=false"}, []string{"-enable=captLocal", "-disable=", "-@captLocal.paramsOnly=false"}, nil},
+		{"parameters at zero", []string{"-enable=hugeParam,rangeValCopy,rangeExprCopy,tooManyResultsChecker,nestingReduce,ifElseChain,commentedOutCode", "-@hugeParam.sizeThreshold=0", "-@rangeValCopy.sizeThreshold=0", "-@rangeExprCopy.sizeThreshold=0", "-@tooManyResultsChecker.maxResults=0", "-@nestingReduce.bodyWidth=0", "-@ifElseChain.minThreshold=0", "-@commentedOutCode.minLength=0"},
+			[]string{"-enable=hugeParam,rangeValCopy,rangeExprCopy,tooManyResultsChecker,nestingReduce,ifElseChain,commentedOutCode", "-disable=", "-@hugeParam.sizeThreshold=0", "-@rangeValCopy.sizeThreshold=0", "-@rangeExprCopy.sizeThreshold=0", "-@tooManyResultsChecker.maxResults=0", "-@nestingReduce.bodyWidth=0", "-@ifElseChain.minThreshold=0", "-@commentedOutCode.minLength=0"}, nil},
+		{"parameters negative and false", []string{"-enable=hugeParam,rangeValCopy,captLocal,elseif", "-@hugeParam.sizeThreshold=-1", "-@rangeValCopy.sizeThreshold=-5", "-@rangeValCopy.skipTestFuncs=false", "-@captLocal.paramsOnly=false", "-@elseif.skipBalanced=false"},
+			[]string{"-enable=hugeParam,rangeValCopy,captLocal,elseif", "-disable=", "-@hugeParam.sizeThreshold=-1", "-@rangeValCopy.sizeThreshold=-5", "-@rangeValCopy.skipTestFuncs=false", "-@captLocal.paramsOnly=false", "-@elseif.skipBalanced=false"}, nil},
 		{"shadow checkers", []string{"-enable=builtinShadow,importShadow,captLocal", "-@captLocal.paramsOnly=false"}, []string{"-enable=builtinShadow,importShadow,captLocal", "-disable=", "-@captLocal.paramsOnly=false"}, nil},
 		{"enable-all minus tags", []string{"-enableAll", "-disable=#performance,#opinionated"}, []string{"-enable-all", "-disable=#performance,#opinionated"}, nil},
 		{"names whose tags are disabled", []string{"-enable=#diagnostic,deferInLoop,hugeParam,captLocal", "-disable=#experimental,#performance"}, []string{"-enable=#diagnostic,deferInLoop,hugeParam,captLocal", "-disable=#experimental,#performance"}, nil},
